@@ -45,7 +45,9 @@ type genSpec struct {
 	split func(k key.Key) [][]byte
 }
 
-func tplOf(p key.Parameters) *tinkpb.KeyTemplate { return must(protoserialization.SerializeParameters(p)) }
+func tplOf(p key.Parameters) *tinkpb.KeyTemplate {
+	return must(protoserialization.SerializeParameters(p))
+}
 
 func splitN(n, parts int) func(k key.Key) [][]byte {
 	return func(k key.Key) [][]byte {
